@@ -1096,3 +1096,38 @@ def extract_encoded(which, variant="comment-vs-option"):
     except Exception as e:
         got = "raised %s: %s" % (type(e).__name__, e)
     return got, want
+
+
+def regex_census(corpus):
+    """every regex any mako module applies while the given templates are lexed by the real code (node constructors and the
+    re-margining of code blocks included), with the function that applied it: {(pattern, flags): caller}.  Recorded at re's own
+    compile entry point, plus the lexer's pattern cache and its class-level coding pattern."""
+    import re
+    import sys
+    from mako import lexer
+    used = {}
+    orig = re._compile
+
+    def spy(pattern, flags):
+        if isinstance(pattern, str):
+            f = sys._getframe(1)
+            while f is not None:
+                if f.f_globals.get("__name__", "").startswith("mako."):
+                    used.setdefault((pattern, int(flags) & ~int(re.U)), f.f_code.co_name)
+                    break
+                f = f.f_back
+        return orig(pattern, flags)
+    re._compile = spy
+    try:
+        for t in corpus:
+            try:
+                lexer.Lexer(t).parse()
+            except Exception:
+                pass
+    finally:
+        re._compile = orig
+    pats = {(k[0], int(k[1] or 0)): "match_reg" for k in lexer._regexp_cache}
+    pats[(lexer.Lexer._coding_re.pattern, int(lexer.Lexer._coding_re.flags & ~re.U))] = "decode_raw_stream"
+    for k, caller in used.items():
+        pats.setdefault(k, caller)
+    return pats
